@@ -115,6 +115,22 @@ def phasorField [Div R] (amp : Int → Int → K) (opd : Int → Int → R) (wl 
   { arr := { s0 := s0, s1 := s1, get := fun x y => amp x y * CxLike.expI (RealLike.twoPi * opd x y / wl) }, o0 := o0, o1 := o1 }
 end ramp
 
+/-- one segment of a segmented aperture with its own tilt: amplitude·mask and OPD on the segment's slice (slice-local indices, slice
+shape `s0 x s1` at offset `(o0, o1)`), the tilt `(thx, thy)` its field carries as metadata, and the split `fix + sub` of the shift -/
+structure SegTilt (K R : Type) where
+  amp : Int → Int → K
+  opd0 : Int → Int → R
+  thx : R
+  thy : R
+  s0 : Int
+  s1 : Int
+  o0 : Int
+  o1 : Int
+  fix0 : Int
+  fix1 : Int
+  sub0 : R
+  sub1 : R
+
 section history
 variable [Add R] [Sub R] [Mul R] [Div R] [Neg R] [RealLike R] [Zero R]
 /-- a plane's OPD/tilt history: OPD updates and tilt fits (with whatever coefficients the solver returned) -/
